@@ -130,7 +130,14 @@ class Space:
     def __init__(self, sp):
         self.sp = sp
         self.kind = sp["kind"]
-        self.n = len(sp["table"]) if self.kind == "line" else len(sp["w"])
+        if self.kind == "perm":
+            self.n = len(sp["w"])
+        elif "gen" in sp:      # class W: long tables given by a rule: ["mono", n, slope] / ["vee", n, centre, slope]
+            self.n = sp["gen"][1]
+        elif "fvals" in sp:    # class X: float extremes, one value per cell (numbers or "inf" / "-inf" / "nan")
+            self.n = len(sp["fvals"])
+        else:
+            self.n = len(sp["table"])
         self.off = sp.get("offset", 0)
         self.sc = sp.get("scale", 1)
         self.encoding = sp.get("enc", "int" if self.kind == "line" else "list")
@@ -183,6 +190,14 @@ class Space:
         raise TypeError("not a point")
 
     def value(self, p):
+        if "fvals" in self.sp:
+            v = self.sp["fvals"][p]
+            return float(v) if isinstance(v, str) else v
+        if "gen" in self.sp:
+            g = self.sp["gen"]
+            if not 0 <= p < g[1]:
+                raise IndexError(p)
+            return self.off + self.sc * (g[2] * p if g[0] == "mono" else g[3] * abs(p - g[2]))
         if self.kind == "line":
             return self.off + self.sc * self.sp["table"][p]
         W = self.sp["w"]
@@ -222,6 +237,16 @@ class Rec:
     def __init__(self):
         self.tokens = []
         self.log = []  # (deep copy of the point, integer value f returned)
+
+
+def sess(session, key, make):
+    """class A2: within a session the SAME objects (space, call-backs, objective, their private rng) serve consecutive
+    solver calls; without a session everything is built fresh."""
+    if session is None:
+        return make()
+    if key not in session:
+        session[key] = make()
+    return session[key]
 
 
 def rec_objective(space, negate, rec):
@@ -296,6 +321,9 @@ def build_inputs(case):
         kind = case.get("pop_kind", "list")
         if kind == "range":
             return {"population": range(len(case["population"]))}
+        if kind == "dup":  # class A2: the SAME object listed several times
+            objs = {}
+            return {"population": [objs.setdefault(json.dumps(p), S.enc(p)) for p in case["population"]]}
         pop = [S.enc(p) for p in case["population"]]
         return {"population": tuple(pop) if kind == "tuple" else pop}
     return {"start": S.enc(case["start"])}
@@ -311,23 +339,27 @@ def inputs_equal(a, b):
     return a.keys() == b.keys() and all(eq(a[k], b[k]) for k in a)
 
 
-def call_anneal(case, minimize, negate, rec, inputs):
+def call_anneal(case, minimize, negate, rec, inputs, session=None):
     M = importlib.import_module("solvor.anneal")
 
     sp = case["space"]
-    S = Space(sp)
+    S = sess(session, "S", lambda: Space(sp))
     n = S.n
-    nrng = random.Random(case["cb_seed"])
+    nrng = sess(session, "rng", random.Random)
+    nrng.seed(case["cb_seed"])
     steps = case.get("steps", [1, 2])
+    drift = case.get("drift")  # class W: probability of stepping right (None: fair)
 
     def neighbors(x):
         p = S.dec(x)
         if S.kind == "line":
-            return S.enc(clamp(p + nrng.choice(steps) * nrng.choice([-1, 1]), n))
+            sgn = nrng.choice([-1, 1]) if drift is None else (1 if nrng.random() < drift else -1)
+            return S.enc(clamp(p + nrng.choice(steps) * sgn, n))
         i, j = nrng.randrange(n), nrng.randrange(n)
         p[i], p[j] = p[j], p[i]
         return S.enc(p)
 
+    neighbors = sess(session, "neighbors", lambda: neighbors)
     orig_exp, orig_ec = M.exp, M.exponential_cooling
 
     def rexp(a):
@@ -356,7 +388,7 @@ def call_anneal(case, minimize, negate, rec, inputs):
             kw[k] = case[k]
     cb, interval = rec_progress(case["progress"], rec)
     with Patched(M, Random=rec_random_class(rec), exp=rexp, exponential_cooling=rec_ec):
-        return M.anneal(inputs["start"], rec_objective(sp, negate, rec), neighbors, minimize=minimize,
+        return M.anneal(inputs["start"], sess(session, "obj", lambda: rec_objective(sp, negate, rec)), neighbors, minimize=minimize,
                         seed=case["seed"], on_progress=cb, progress_interval=interval, **kw)
 
 
@@ -382,6 +414,9 @@ def lns_ops(case):
     def r_step(x, rng):
         return S.enc(clamp(S.dec(x) + rng.choice([-2, -1, 1, 2]), n))
 
+    def r_inc1(x, rng):  # class W: a walk that never returns
+        return S.enc(clamp(S.dec(x) + 1, n))
+
     def r_same(x, rng):
         return x
 
@@ -394,7 +429,7 @@ def lns_ops(case):
     def r_sorted(part, rng):
         return S.enc(list(part[0]) + sorted(part[1]))
 
-    return {"id": d_id, "shift": d_shift, "drop": d_drop, "dec1": r_dec1, "step": r_step, "same": r_same,
+    return {"id": d_id, "shift": d_shift, "drop": d_drop, "dec1": r_dec1, "step": r_step, "same": r_same, "inc1": r_inc1,
             "insert": r_insert, "sorted": r_sorted}
 
 
@@ -408,10 +443,10 @@ def make_accept(spec, cb_seed):
             "none_or_str": lambda c, n, i, r: ("yes" if n < c else None)}[spec]
 
 
-def call_lns(case, minimize, negate, rec, inputs):
+def call_lns(case, minimize, negate, rec, inputs, session=None):
     M = importlib.import_module("solvor.lns")
 
-    ops = lns_ops(case)
+    ops = sess(session, "ops", lambda: lns_ops(case))
     orig_get = M._get_accept_fn
 
     def rec_get(accept, *a, **k):
@@ -427,18 +462,18 @@ def call_lns(case, minimize, negate, rec, inputs):
     cb, interval = rec_progress(case["progress"], rec)
     common = dict(minimize=minimize, seed=case["seed"], on_progress=cb, progress_interval=interval)
     if "accept" in case:
-        common["accept"] = make_accept(case["accept"], case["cb_seed"])
+        common["accept"] = make_accept(case["accept"], case["cb_seed"])  # (rebuilt per call: its private rng restarts)
     for k in ("start_temp", "cooling_rate", "max_iter", "max_no_improve"):
         if k in case:
             common[k] = case[k]
     with Patched(M, Random=rec_random_class(rec), _get_accept_fn=rec_get):
         if case["solver"] == "lns":
-            return M.lns(inputs["start"], rec_objective(case["space"], negate, rec), ops[case["destroy"][0]],
+            return M.lns(inputs["start"], sess(session, "obj", lambda: rec_objective(case["space"], negate, rec)), ops[case["destroy"][0]],
                          ops[case["repair"][0]], **common)
         if "segment_size" in case:
             common["segment_size"] = case["segment_size"]
         seq = tuple if case.get("ops_kind") == "tuple" else list
-        return M.alns(inputs["start"], rec_objective(case["space"], negate, rec), seq(ops[d] for d in case["destroy"]),
+        return M.alns(inputs["start"], sess(session, "obj", lambda: rec_objective(case["space"], negate, rec)), seq(ops[d] for d in case["destroy"]),
                       seq(ops[r] for r in case["repair"]), **common)
 
 
@@ -450,15 +485,17 @@ def tabu_moves(case):
     return [(i, j) for i in range(S.n) for j in range(i + 1, S.n)][: case.get("max_cands", 99)]
 
 
-def call_tabu(case, minimize, negate, rec, inputs):
+def call_tabu(case, minimize, negate, rec, inputs, session=None):
     M = importlib.import_module("solvor.tabu")
 
     sp = case["space"]
-    S = Space(sp)
+    S = sess(session, "S", lambda: Space(sp))
     n = S.n
     keys = tabu_moves(case)
     mdesc = case.get("mdesc")  # class L: one label descriptor per move key (None: the plain key)
     ret_kind = case.get("ret_kind", "list")
+
+    unique = case.get("move_unique")  # class W: every (move, position) pair is its own label: the tabu memory fills up
 
     def label(k):
         return keys[k] if mdesc is None else build(mdesc[k])
@@ -472,7 +509,7 @@ def call_tabu(case, minimize, negate, rec, inputs):
                 if case.get("clamp"):
                     y = clamp(y, n)
                 if 0 <= y < n:
-                    cands.append((label(k), S.enc(y)))
+                    cands.append(((label(k), p) if unique else label(k), S.enc(y)))
             else:
                 q = list(p)
                 q[mv[0]], q[mv[1]] = q[mv[1]], q[mv[0]]
@@ -488,23 +525,25 @@ def call_tabu(case, minimize, negate, rec, inputs):
             return dict(cands).items()
         return cands
 
+    neighbors = sess(session, "neighbors", lambda: neighbors)
     kw = {}
     for k in ("cooldown", "max_iter", "max_no_improve"):
         if k in case:
             kw[k] = case[k]
     cb, interval = rec_progress(case["progress"], rec)
     with Patched(M, Random=rec_random_class(rec)):
-        return M.tabu_search(inputs["start"], rec_objective(sp, negate, rec), neighbors, minimize=minimize,
+        return M.tabu_search(inputs["start"], sess(session, "obj", lambda: rec_objective(sp, negate, rec)), neighbors, minimize=minimize,
                              seed=case["seed"], on_progress=cb, progress_interval=interval, **kw)
 
 
-def call_evolve(case, minimize, negate, rec, inputs):
+def call_evolve(case, minimize, negate, rec, inputs, session=None):
     M = importlib.import_module("solvor.genetic")
 
     sp = case["space"]
-    S = Space(sp)
+    S = sess(session, "S", lambda: Space(sp))
     n = S.n
-    crng = random.Random(case["cb_seed"])
+    crng = sess(session, "rng", random.Random)
+    crng.seed(case["cb_seed"])
 
     def crossover(xa, xb):
         a, b = S.dec(xa), S.dec(xb)
@@ -522,6 +561,8 @@ def call_evolve(case, minimize, negate, rec, inputs):
         a[i], a[j] = a[j], a[i]
         return S.enc(a)
 
+    crossover = sess(session, "crossover", lambda: crossover)
+    mutate = sess(session, "mutate", lambda: mutate)
     kw = {}
     for k, name in (("elite_size", "elite_size"), ("mutation_rate", "mutation_rate"), ("adaptive", "adaptive_mutation"),
                     ("max_iter", "max_iter"), ("tournament_k", "tournament_k")):
@@ -529,7 +570,7 @@ def call_evolve(case, minimize, negate, rec, inputs):
             kw[name] = case[k]
     cb, interval = rec_progress(case["progress"], rec)
     with Patched(M, Random=rec_random_class(rec)):
-        return M.evolve(rec_objective(sp, negate, rec), inputs["population"], crossover, mutate, minimize=minimize,
+        return M.evolve(sess(session, "obj", lambda: rec_objective(sp, negate, rec)), inputs["population"], crossover, mutate, minimize=minimize,
                         seed=case["seed"], on_progress=cb, progress_interval=interval, **kw)
 
 
@@ -554,12 +595,13 @@ def canon_int(x):
     return None
 
 
-def run_once(case, minimize, negate, inputs=None):
+def run_once(case, minimize, negate, inputs=None, session=None):
     """One implementation run -> picklable record."""
-    rec = Rec()
+    rec = session["rec"] if session is not None else Rec()
+    del rec.tokens[:], rec.log[:]
     inputs = inputs if inputs is not None else build_inputs(case)
-    res = guarded(CALL[case["solver"]], case, minimize, negate, rec, inputs, timeout=case.get("timeout", 5))
-    out = {"minimize": minimize, "negate": negate, "status": res[0], "tokens": rec.tokens, "log": rec.log,
+    res = guarded(CALL[case["solver"]], case, minimize, negate, rec, inputs, session, timeout=case.get("timeout", 5))
+    out = {"minimize": minimize, "negate": negate, "status": res[0], "tokens": list(rec.tokens), "log": list(rec.log),
            "inputs_intact": inputs_equal(inputs, build_inputs(case))}
     if res[0] == "ok":
         r = res[1]
@@ -574,6 +616,8 @@ def run_case(case):
     """primary run, mirror run (other direction on -f), repeat of the primary (determinism) - all three on the SAME
     caller-owned input objects; class M cases additionally the same case without offset (shift invariance)."""
     m = case["minimize"]
+    if case.get("a2"):
+        return run_case_a2(case)
     inputs = build_inputs(case)
     a = run_once(case, m, False, inputs)
     b = run_once(case, not m, True, inputs)
@@ -586,9 +630,64 @@ def run_case(case):
     return a, b, c, d
 
 
+def apply_a2(live, inputs):
+    """class A2: edit the caller's objects IN PLACE between two calls: the table behind the same objective object, the
+    start list / one population entry inside the same container; optionally the next call is the module's other solver."""
+    ed = live["a2"]
+    S = Space(live["space"])
+    for j, v in ed.get("table", []):
+        live["space"]["table"][j] = v
+    if "w" in ed:
+        i, j, v = ed["w"]
+        live["space"]["w"][i][j] = v
+    if "start" in ed:
+        live["start"] = ed["start"]
+        new = S.enc(ed["start"])
+        if isinstance(inputs["start"], list):
+            inputs["start"][:] = new
+        else:
+            inputs["start"] = new
+    if "pop" in ed:
+        i, p = ed["pop"]
+        live["population"][i] = p
+        inputs["population"][i] = S.enc(p)
+    if ed.get("switch"):
+        live["solver"] = {"lns": "alns", "alns": "lns"}[live["solver"]]
+        if live["solver"] == "lns":
+            live["destroy"], live["repair"] = live["destroy"][:1], live["repair"][:1]
+
+
+def run_case_a2(case):
+    """call, edit the inputs in place, call again WITH THE SAME OBJECTS; reference: a fresh call on a deep copy of the
+    edited case.  Returned as (second call, fresh mirror, fresh call, None): judge_det compares the two."""
+    m = case["minimize"]
+    live = copy.deepcopy(case)
+    session = {"rec": Rec()}
+    inputs = build_inputs(live)
+    run_once(live, m, False, inputs, session)
+    apply_a2(live, inputs)
+    second = run_once(live, m, False, inputs, session)
+    eff = copy.deepcopy(live)
+    fresh = run_once(copy.deepcopy(eff), m, False)
+    mirror = run_once(copy.deepcopy(eff), not m, True)
+    second["case"] = eff
+    return second, mirror, fresh, None
+
+
 # ====================================================================================== independent oracle
+def is_nan(v):
+    return isinstance(v, float) and v != v
+
+
+def veq(a, b):
+    """equality of objective values that lets NaN equal NaN (class X)"""
+    return a == b or (is_nan(a) and is_nan(b))
+
+
 def judge(case, run):
     """The property itself on one run.  Returns None or a description."""
+    if run["status"] == "exc" and case.get("may_raise"):
+        return None  # class X: NaN / wrongly typed numbers may be rejected by an exception (never by a wrong answer or a hang)
     if run["status"] != "ok":
         return f"implementation {run['status']}: {run.get('error')}"
     r = run["result"]
@@ -598,10 +697,12 @@ def judge(case, run):
         fx = f(r["solution"])
     except Exception as e:  # noqa: BLE001
         return f"returned solution {r['solution']!r} is not a point of the space ({type(e).__name__})"
-    if r["objective"] != fx:
+    if not veq(r["objective"], fx):
         return f"reported objective {r['objective']!r} != f(returned solution {r['solution']!r}) = {fx}"
     vals = [v for _, v in run["log"]]
     worst = [v for v in vals if (v < r["objective"] if minimize else v > r["objective"])]
+    if any(is_nan(v) for v in vals):
+        worst = []  # class X: NaN is unordered - "best of everything evaluated" is only judged on NaN-free logs
     if worst:
         k = vals.index(worst[0])
         return (f"reported objective {r['objective']!r} is worse than evaluated candidate #{k} {run['log'][k][0]!r} "
@@ -611,12 +712,21 @@ def judge(case, run):
     starts = case["population"] if case["solver"] == "evolve" else [case["start"]]
     for p in starts:
         fs = s * S.value(p)
+        if any(is_nan(v) for v in vals):
+            break  # (a NaN among the values makes sorting / comparing order-dependent: observed on the unchanged evolve)
         if fs < r["objective"] if minimize else fs > r["objective"]:
             return f"reported objective {r['objective']!r} is worse than start point {p} with f={fs}"
     if r["evaluations"] != len(vals):
         return f"evaluations={r['evaluations']} but the objective was called {len(vals)} times"
     if not run["inputs_intact"]:
         return "the caller's start point / population object was modified by the solver"
+    ex = case.get("expect") or {}  # class W: answers known by construction
+    if "solution_is" in ex and not (sol_eq(r["solution"], S.enc(ex["solution_is"])) and r["objective"] == s * S.value(ex["solution_is"])):
+        return (f"by construction the start point {ex['solution_is']} is strictly better than every other point, but the result is "
+                f"({r['solution']!r}, {r['objective']!r})")
+    for k in ("iterations", "evaluations"):
+        if k in ex and r[k] != ex[k]:
+            return f"by construction the run performs exactly {ex[k]} {k}, reported {r[k]}"
     return None
 
 
@@ -628,7 +738,7 @@ def judge_mirror(a, b):
     if a["status"] != "ok" or b["status"] != "ok":
         return None  # judged by `judge`
     ra, rb = a["result"], b["result"]
-    if not sol_eq(ra["solution"], rb["solution"]) or ra["objective"] != -rb["objective"] or ra["evaluations"] != rb["evaluations"] \
+    if not sol_eq(ra["solution"], rb["solution"]) or not veq(ra["objective"], -rb["objective"]) or ra["evaluations"] != rb["evaluations"] \
             or ra["iterations"] != rb["iterations"]:
         return (f"mirror broken: {'min' if a['minimize'] else 'max'} f -> ({ra['solution']!r}, {ra['objective']!r}, evals {ra['evaluations']}, "
                 f"it {ra['iterations']}) but {'min' if b['minimize'] else 'max'} -f -> ({rb['solution']!r}, {rb['objective']!r}, "
@@ -641,9 +751,11 @@ def judge_det(a, c):
         return f"same seed twice: {a['status']} vs {c['status']}"
     if a["status"] != "ok":
         return None
-    if a["result"] != c["result"] or not sol_eq(a["result"]["solution"], c["result"]["solution"]) \
-            or [v for _, v in a["log"]] != [v for _, v in c["log"]]:
-        return f"same seed, same input objects, second call gives a different result: {a['result']} vs {c['result']}"
+    ra, rc = a["result"], c["result"]
+    la, lc = [v for _, v in a["log"]], [v for _, v in c["log"]]
+    if any(ra[k] != rc[k] for k in ("iterations", "evaluations", "status")) or not veq(ra["objective"], rc["objective"]) \
+            or not sol_eq(ra["solution"], rc["solution"]) or len(la) != len(lc) or not all(veq(x, y) for x, y in zip(la, lc)):
+        return f"same seed, same input, another call gives a different result (state kept between calls): {ra} vs {rc}"
     return None
 
 
@@ -664,6 +776,7 @@ def judge_shift(case, a, d):
 def judge_all(case, runs):
     """every oracle clause on the runs of one case: list of (tag, description)"""
     a, b, c, d = runs
+    case = a.get("case") or case  # class A2: the case as edited in place before the judged call
     out = []
     for tag, rr in (("primary", a), ("mirror", b)):
         w = judge(case, rr)
@@ -1084,6 +1197,132 @@ def fam_H(rng, solver, big):
     return case
 
 
+W_SIZES = [129, 1025, 2049, 4097, 10001]
+
+
+def fam_W(rng, solver, big):
+    """work volume: every loop driven across 2^7, 2^10, 2^11, 2^12, 10^4 (10^5 for anneal / thorough) iterations with answers
+    known by construction: 'first' = the start is the strict optimum and the search walks away from it for good (a bounded
+    memory / cap / window would forget it), 'last' = every step improves (the best is the newest point), 'mni' = a constant
+    objective must stop at exactly max_no_improve, 'wide' = one huge neighbourhood / population."""
+    out = []
+    sizes = W_SIZES + ([100001] if big or solver == "anneal" else [])
+    for k in sizes:
+        pats = ["first", "last"] + (["mni"] if solver in ("lns", "alns", "tabu") else []) + (["wide"] if solver in ("tabu", "evolve") and k <= (10001 if big else 4097) else [])
+        if not big and k > 4097:
+            pats = ["first", pats[1 + k % (len(pats) - 1)]]
+        for pat in pats:
+            m = rng.random() < 0.5
+            good = 1 if m else -1  # slope that makes cell 0 the strict optimum
+            slope = good if pat in ("first", "wide") else (-good if pat == "last" else 0)
+            n = k + 3 if solver != "tabu" else 2 * k + 5
+            case = {"solver": solver, "family": "W", "wpat": pat, "seed": rng.randrange(10**6), "cb_seed": rng.randrange(10**6), "minimize": m,
+                    "max_iter": k, "progress": rng.choice([None, {"interval": 1000, "stop_at": None, "ret": "None"}]), "timeout": 60,
+                    "space": {"kind": "line", "gen": ["mono", n, slope], "float": False, "enc": rng.choice(["int", "big", "str", "tuple"])},
+                    "start": 0}
+            if solver == "anneal":
+                hot = pat == "first"
+                case.update(temperature=1000.0 if hot else 1.0, cooling=["lin", 500.0 if hot else 0.5], min_temp=1e-8, steps=[1], drift=0.9,
+                            expect={"iterations": k, "evaluations": k + 1})
+                if pat == "first":
+                    case["drift"] = 1.0
+                    case["expect"]["solution_is"] = 0
+            elif solver in ("lns", "alns"):
+                nd = 1 if solver == "lns" else 2
+                case.update(destroy=["id"] * nd, repair=["inc1"] * nd, start_temp=100.0, cooling_rate=0.9995, segment_size=100,
+                            max_no_improve=k + 1, accept="always" if pat == "first" else "improving", expect={"iterations": k, "evaluations": k + 1})
+                if pat == "first":
+                    case["expect"]["solution_is"] = 0
+                if pat == "mni":
+                    case.update(max_no_improve=k, max_iter=k + 37, accept="always")
+            elif solver == "tabu":
+                case.update(steps=[1, 2] if pat != "last" else [1], clamp=False, cooldown=10, max_no_improve=k + 1, ret_kind="list", mdesc=None,
+                            max_cands=99, move_unique=pat != "last", expect={"iterations": k})
+                if pat == "first":
+                    case.update(cooldown=max(1, 3 * k // 4))
+                    case["expect"].update(solution_is=0, evaluations=1 + 2 * k)
+                elif pat == "mni":
+                    case.update(max_no_improve=k, max_iter=k + 37)
+                elif pat == "wide":
+                    case["space"]["gen"] = ["mono", k + 2, slope]
+                    case.update(steps=list(range(1, k + 1)), max_iter=2, max_no_improve=100, move_unique=False,
+                                expect={"solution_is": 0, "iterations": 2})
+            else:
+                case["space"]["gen"] = ["mono", 64 if pat != "wide" else 2 * k, slope if pat != "last" else good]
+                del case["start"]
+                if pat == "wide":
+                    e = rng.choice([0, 2, k - 1])
+                    case.update(population=[0] + [rng.randrange(1, 2 * k) for _ in range(k - 1)], elite_size=e, max_iter=2, mutation_rate=0.5,
+                                adaptive=False, tournament_k=3, pop_kind="list",
+                                expect={"solution_is": 0, "iterations": 2, "evaluations": k + 2 * (k - e)})
+                else:
+                    e = rng.choice([0, 1, 2])
+                    case.update(population=[rng.randrange(1, 64), 0, rng.randrange(1, 64)], elite_size=e, mutation_rate=rng.choice([0.1, 1.0]),
+                                adaptive=pat == "last", tournament_k=2, pop_kind="list",
+                                expect={"solution_is": 0, "iterations": k, "evaluations": 3 + k * (3 - e)})
+            out.append(case)
+    return out
+
+
+XVALS = [1e308, -1e308, 1.7976931348623157e308, "inf", "-inf", 0.0, -0.0, 2.0**60, -(2.0**60), 2.0**60 + 256, 2.0**60 - 128, 5e-324, -5e-324, 1e-300,
+         0.1 + 0.2, 0.3, 33, 33.0, 1, 1.0, -1, 2**60, -(2**60) + 1]
+
+
+def fam_X(rng, solver, big):
+    """float extremes: +-1e308 (differences overflow to inf), +-inf, +-0.0, denormals, 2^60 next to -2^60, 0.1+0.2 vs 0.3, ints next
+    to equal floats; NaN (unordered: only 'raises or stays faithful'); ints where floats are expected and vice versa."""
+    case = gen_case(rng, solver, big, enc=rng.choice(["int", "list", "str", "tuple", "big"]), space_kind="line")
+    sp = case["space"]
+    n = len(sp.pop("table"))
+    sp["float"] = False
+    nan = rng.random() < 0.2
+    sp["fvals"] = [rng.choice(XVALS + (["nan", "nan", "nan"] if nan else [])) for _ in range(n)]
+    case.update(family="X", nocoq=True, may_raise=nan)
+    if case["seed"] is None:
+        case["seed"] = rng.randrange(10**6)
+    r = rng.random()
+    if r < 0.25:  # ints where the signature says float
+        for k, v in (("temperature", 10), ("min_temp", 1), ("start_temp", 2), ("cooling_rate", 1), ("mutation_rate", rng.choice([0, 1]))):
+            if k in case:
+                case[k] = v
+        if "cooling" in case:
+            case["cooling"] = ["float", 1]
+    elif r < 0.4:  # integral floats where the signature says int: a TypeError is fine, a wrong answer is not
+        k = rng.choice([k for k in ("max_iter", "max_no_improve", "cooldown", "elite_size", "tournament_k") if k in case])
+        case[k] = float(case[k])
+        case["may_raise"] = True
+    case["max_iter"] = max(case["max_iter"], 3) if not isinstance(case["max_iter"], float) else case["max_iter"]
+    return case
+
+
+def fam_A2(rng, solver, big):
+    """in-place edits between calls: same objective / call-back / start / population OBJECTS, table or entries edited in place,
+    second call (for lns/alns possibly the module's other solver) must equal a fresh call on a copy of the edited input"""
+    case = gen_case(rng, solver, big, enc="list")
+    sp = case["space"]
+    case.update(family="A2", max_iter=max(case["max_iter"], 5), progress=None)
+    if case["seed"] is None:
+        case["seed"] = rng.randrange(10**6)
+    ed = {}
+    if sp["kind"] == "line":
+        n = len(sp["table"])
+        ed["table"] = [[rng.randrange(n), rng.choice([-40, -15, 15, 40, 0])] for _ in range(rng.randint(1, 3))]
+    else:
+        n = len(sp["w"])
+        ed["w"] = [rng.randrange(n), rng.randrange(n), rng.choice([-40, 40])]
+    if solver == "evolve":
+        if rng.random() < 0.7:
+            ed["pop"] = [rng.randrange(len(case["population"])), gen_start(rng, sp)]
+        case["pop_kind"] = rng.choice(["list", "list", "dup"])
+    else:
+        if rng.random() < 0.6:
+            ed["start"] = gen_start(rng, sp)
+        if solver in ("lns", "alns") and rng.random() < 0.5:
+            ed["switch"] = True
+    case["a2"] = ed
+    return case
+
+
 def corpus_cases():
     out = []
     d = VERIF / "corpus" / "C19"
@@ -1253,7 +1492,7 @@ def all_cases(ctx):
     big = ctx.tier == "thorough"
     rng = ctx.rng
     cases = corpus_cases()
-    per = ctx.budget(100, 2500)
+    per = ctx.budget(90, 2500)
     fam = ctx.budget(1, 12)
     for s in SOLVERS:
         cases += [gen_case(rng, s, big) for _ in range(per)]
@@ -1264,6 +1503,9 @@ def all_cases(ctx):
         for _ in range(fam):
             cases += fam_O(rng, s, big)
         cases += [fam_S(rng, s, big) for _ in range(2 if not big else 8)]
+        cases += fam_W(rng, s, big)
+        cases += [fam_X(rng, s, big) for _ in range(24 * fam)]
+        cases += [fam_A2(rng, s, big) for _ in range(16 * fam)]
     cases += [fam_defaults(rng, s) for s in rng.sample(SOLVERS, 2 if not big else 5)]
     return cases
 
@@ -1271,17 +1513,42 @@ def all_cases(ctx):
 def run_part_a(ctx: Ctx):
     cases = all_cases(ctx)
     known = {f["id"] for f in ctx.open_findings()}
-    results = pmap(run_case, cases)
+    # heaviest first, small chunks: the few work-volume cases must not queue up behind each other in one worker
+    cases.sort(key=lambda c: -(int(opt(c, "max_iter")) * (len(c["population"]) if c["solver"] == "evolve" else len(c.get("steps", [1])))))
+    import time as _t
+    _t0 = _t.time()
+    results = pmap(run_case, cases, chunksize=2)
+    ctx.extra["t_impl_runs_s"] = round(_t.time() - _t0, 1)
     terms = {k: [] for k in CORR}
     metas = {k: [] for k in CORR}
     specs, spec_meta = [], []
     shape_fail = []
+    loop_max = {}
+
+    def lm(key, v):
+        loop_max[key] = max(loop_max.get(key, 0), int(v))
+
     for case, runs in zip(cases, results):
         a, b = runs[0], runs[1]
+        case = a.get("case") or case  # class A2: the case as edited in place
+        if a["status"] == "ok":
+            sv = case["solver"]
+            lm(f"{sv}.main_loop_iterations", a["result"]["iterations"])
+            lm(f"{sv}.objective_evaluations", a["result"]["evaluations"])
+            if sv == "tabu":
+                lm("tabu.candidates_in_one_iteration", max([len(t[1]) for t in a["tokens"] if t[0] == "nb"] or [0]))
+                if case.get("move_unique"):
+                    lm("tabu.tabu_list_length", min(opt(case, "cooldown"), a["result"]["iterations"]))
+            if sv == "evolve":
+                n_ = len(case["population"])
+                lm("evolve.children_per_generation", n_ - min(max(int(opt(case, "elite_size")), 0), n_))
+                lm("evolve.population_size", n_)
+            if sv in ("lns", "alns", "tabu") and a["result"]["iterations"] < opt(case, "max_iter"):
+                lm(f"{sv}.no_improve_counter", a["result"]["iterations"])
         ctx.evaluations += 3 + (runs[3] is not None)
         ctx.count("solver", case["solver"])
         ctx.count("family", case["family"])
-        ctx.count("max_iter", min(opt(case, "max_iter"), 100))
+        ctx.count("max_iter", min(int(opt(case, "max_iter")), 100))
         ctx.count("point_encoding", case["space"].get("enc", "-"))
         ctx.count("status", a["status"] if a["status"] != "ok" else a["result"]["status"])
         for e in events_of(case, a):
@@ -1307,7 +1574,7 @@ def run_part_a(ctx: Ctx):
             ctx.nontriv(json.dumps(case, sort_keys=True))
         ctx.sample({"case": {k: case[k] for k in ("solver", "family", "seed", "minimize")}, "result": a.get("result")}, 3)
         for rr in (a, b):
-            if rr["status"] != "ok" or len(rr["log"]) > COQ_MAX_EVALS:
+            if rr["status"] != "ok" or len(rr["log"]) > COQ_MAX_EVALS or case.get("nocoq"):
                 continue
             try:
                 kind, term, spec = coq_case(case, rr)
@@ -1321,6 +1588,8 @@ def run_part_a(ctx: Ctx):
                 spec_meta.append((case, rr))
             ctx.traces_validated += 1
 
+    ctx.extra["max_loop_counts"] = dict(sorted(loop_max.items()))
+    ctx.extra["t_judge_s"] = round(_t.time() - _t0 - ctx.extra["t_impl_runs_s"], 1)
     disagree = []
     for kind, (ctype, chk) in CORR.items():
         failing = ctx.coq_check(kind, IMPORTS, ctype, chk, terms[kind], shard=120)
